@@ -7,7 +7,8 @@ import container as C
 RULE = ("histories as C03 biased to repeated adds of one type and setter assignment when present/absent/table full; after every "
         "call: per-type count in an independent parse (Lean typesNodupB), and every accessor (five has_*, len, get_block by type "
         "for all 17 type codes, get_block by index -2..N+1, [] , blocks, six getters) against the live set parsed from disk; "
-        "duplicate add must raise ValueError; non-trivial as C03")
+        "duplicate add must raise ValueError; plus every history of length <= 4 over add/remove/setter of three blocks of different "
+        "types and IDENTICAL size (1144 bytes; thorough also 4312) with all accessors after every call; non-trivial as C03")
 ASSUMPTIONS = ["blocks of undecodable types make get_block/blocks raise NotImplementedError by design; for them only presence/count are compared"]
 DECODABLE = set(A.BLOCKTYPE.values())
 
@@ -140,7 +141,9 @@ def run(ctx):
         return gen_dup_history(rng) if rng.random() < 0.4 else orig(rng, length, **kw)
     C.gen_history = mixed
     try:
-        for r in C.explore(ctx, ctx.n(400, 6000), 10, c03.STYLES, p_invalid=0.1, observe=observe):
+        import itertools
+        for r in itertools.chain(C.explore(ctx, ctx.n(400, 6000), 10, c03.STYLES, p_invalid=0.1, observe=observe),
+                                 C.explore_equal_sizes_big(ctx, observe=observe)):
             ctx.case((r.desc, str(C.jsonable_hist(r.hist))), nontrivial=C.nontrivial_history(r),
                      sample=dict(start=r.desc, ops=[s["op"][0] + ":" + s["real"] for s in r.steps]), tags=C.history_tags(r))
             C.correspondence(ctx, r)
